@@ -1336,6 +1336,9 @@ pub fn gen_body(
         let t = *ch.pick(&vts);
         let n = if !cfg.exec && ch.chance(1, 40) {
             130 + ch.below(10) as u32
+        } else if ch.chance(1, 10) {
+            // a declaration group may be empty
+            0
         } else {
             1 + ch.below(3) as u32
         };
